@@ -78,20 +78,97 @@ def _clone(n, idmap, subst):
     return out
 
 
+class _Pseudo:
+    """a local closure presented as a helper function"""
+    def __init__(self, key, name, params, body, host):
+        self.key, self.name, self.params, self.body = key, name, params, body
+        self.ret = 'auto'
+        self.file, self.cls, self.kind, self.d = host.file, host.cls, 'closure', {}
+
+
+def _beta(n):
+    """apply closure literals where they are called: `([](auto a, auto b) { return a + b; })(x, y)` → `x + y` (single-return
+    bodies, side-effect-free arguments)"""
+    if isinstance(n, list):
+        return [_beta(x) for x in n]
+    if not isinstance(n, dict):
+        return n
+    n = {k: _beta(v) if isinstance(v, (dict, list)) else v for k, v in n.items()}
+    lam, args = None, None
+    if n.get('k') == 'call' and not n.get('callee') and SX.is_node(n.get('calleeExpr')) and SX.strip(n['calleeExpr']).get('k') == 'lambda':
+        lam, args = SX.strip(n['calleeExpr']), n.get('args', [])
+    elif n.get('k') == 'opcall' and n.get('op') == '()' and n.get('args') and SX.is_node(SX.strip(n['args'][0])) and SX.strip(n['args'][0]).get('k') == 'lambda':
+        lam, args = SX.strip(n['args'][0]), n['args'][1:]
+    if lam is not None:
+        body = lam.get('body')
+        st = body.get('body') if SX.is_node(body) and body.get('k') == 'block' else None
+        if st and len(st) == 1 and st[0]['k'] == 'return' and SX.is_node(st[0].get('e')) and len(lam.get('params', [])) == len(args) and all(pure(a) for a in args):
+            sub = {p_['id']: a for p_, a in zip(lam['params'], args)}
+            return _clone(st[0]['e'], {}, sub)
+    return n
+
+
 class _Inliner:
-    def __init__(self, prog, f, depth, keep=()):
+    def __init__(self, prog, f, depth, keep=(), only=None):
         self.p = prog
         self.f = f
         self.depth = depth
         self.keep = set(keep)
+        self.only = only          # when given: keys of the only functions that may be inlined
         self.count = 0
         self.serial = 0
         self.renames = {}      # caller var id → helper-local id (nrvo)
+        self._early = {}
+        self._clos = None
 
     # ---- which callees ---------------------------------------------------------------------------------------------------
+    def _closures(self):
+        """local closures of the function: variable id → lambda node, for variables that are never reassigned"""
+        if self._clos is None:
+            self._clos = {}
+            written = set()
+            for n in SX.walk(self.f.body):
+                w = SX.write_target(n)
+                if w and SX.is_node(SX.strip(w[0])) and SX.strip(w[0]).get('k') == 'ref':
+                    written.add(SX.strip(w[0]).get('id'))
+            for n in SX.walk(self.f.body):
+                if n['k'] == 'var' and n.get('id') not in written and SX.is_node(n.get('init')) and SX.strip(n['init']).get('k') == 'lambda':
+                    self._clos[n['id']] = SX.strip(n['init'])
+        return self._clos
+
+    def closure_callee(self, e, stack):
+        """a call of a local closure that takes a closure literal (`arithmetic([](auto a, auto b) { return a + b; })`): such
+        higher-order local closures are expanded like new helpers, the literal is substituted and applied (beta reduction)"""
+        if not (SX.is_node(e) and e.get('k') == 'opcall' and e.get('op') == '()' and e.get('args')):
+            return None
+        c = SX.strip(e['args'][0])
+        if not (SX.is_node(c) and c.get('k') == 'ref' and c.get('id') in self._closures()):
+            return None
+        if self.only is None:
+            return None       # closures are expanded only under the global new-helper policy
+        lam = self._closures()[c['id']]
+        if not any(SX.is_node(SX.strip(a)) and SX.strip(a).get('k') == 'lambda' for a in e['args'][1:]):
+            return None
+        key = 'closure:%s:%s' % (c['id'], self.f.key)
+        if key in stack or len(lam.get('params', [])) != len(e['args']) - 1:
+            return None
+        body = lam.get('body')
+        if not (SX.is_node(body) and body.get('k') == 'block'):
+            return None
+        if any(n['k'] == 'lambda' for n in SX.walk(body)) or sum(1 for _ in SX.walk(body)) > 300:
+            return None
+        if any(n.get('k') == 'opcall' and n.get('op') == '()' and n.get('args') and SX.strip(n['args'][0]).get('id') == c['id'] for n in SX.walk(body)):
+            return None
+        h = _Pseudo(key, '%s::<closure %s>' % (self.f.name, c.get('name')), lam.get('params', []), body, self.f)
+        rets = [n for n in SX.walk(body, into_lambdas=False) if n['k'] == 'return']
+        h.ret = 'auto' if any(r.get('e') is not None for r in rets) else 'void'
+        bl = body.get('body')
+        self._early[h.key] = bool(rets) and not (len(rets) == 1 and bl and bl[-1] is rets[0])
+        return h
+
     def callee(self, e, stack):
         if not (SX.is_node(e) and e.get('k') in ('call', 'mcall')):
-            return None
+            return self.closure_callee(e, stack)
         if e['k'] == 'mcall':
             o = SX.strip(e.get('obj'))
             if not (SX.is_node(o) and o.get('k') == 'this'):
@@ -101,6 +178,8 @@ class _Inliner:
             return None
         h = ts[0]
         if h.name in self.keep:
+            return None
+        if self.only is not None and h.key not in self.only:
             return None
         if h.kind in ('lambda', 'ctor', 'dtor') or h.key in stack or h is self.f or not (h.file == self.f.file or (h.cls is not None and h.cls == self.f.cls)):
             return None
@@ -114,8 +193,8 @@ class _Inliner:
         if body is None:
             return None
         rets = [n for n in SX.walk(h.body, into_lambdas=False) if n['k'] == 'return']
-        if rets and not (len(rets) == 1 and body and body[-1] is rets[0]):
-            return None
+        h_early = bool(rets) and not (len(rets) == 1 and body and body[-1] is rets[0])
+        self._early[h.key] = h_early
         if any(n['k'] in ('goto', 'label', 'unkstmt') or (n['k'] == 'var' and n.get('static')) for n in SX.walk(h.body)):
             return None      # a static local is one object for all calls: not expressible after inlining
         # a helper that calls itself (directly) is not inlined
@@ -123,9 +202,9 @@ class _Inliner:
             return None
         return h
 
-    def expand(self, call, h, stack, pure_only=False):
+    def expand(self, call, h, stack, pure_only=False, tail=False):
         """(prefix statements, returned expression or None) for one call of h, or None when the call cannot be inlined"""
-        args = SX.real_args(call)
+        args = SX.real_args(call) if call.get('k') != 'opcall' else list(call['args'][1:])
         self.serial += 1
         tag = '@%d' % self.serial
         idmap = {i: i + tag for i in _locals_of(h)}
@@ -146,6 +225,9 @@ class _Inliner:
                 if not pure(a):
                     return None
                 continue
+            if SX.is_node(SX.strip(a)) and SX.strip(a).get('k') == 'lambda':
+                subst[prm['id']] = SX.strip(a)       # a closure literal handed to a higher-order closure: applied where it is called
+                continue
             if t.endswith('&'):
                 if pure(a):
                     subst[prm['id']] = a
@@ -162,6 +244,47 @@ class _Inliner:
         body = h.body['body']
         ret = None
         stmts = body
+        if tail and (self._early.get(h.key) or isinstance(h, _Pseudo)):
+            # `return h(…);` — returning from the helper is returning from the caller: the body is spliced with its returns kept
+            out = []
+            for s_ in prefix + _beta(_clone(body, idmap, subst)):
+                out.extend(self.stmt(s_, stack | {h.key}, self.depth - len(stack) - 1))
+            self.count += 1
+            return out, 'TAIL'
+        if self._early.get(h.key):
+            # `return`s anywhere in the helper: the body becomes an inlineblock whose returns are jumps to its end (ireturn);
+            # a returned value goes through a fresh result local
+            if pure_only:
+                return None
+            rid = '__ret' + tag
+            void = (h.ret or 'void').strip() == 'void'
+
+            def rwret(n):
+                if isinstance(n, list):
+                    return [rwret(x) for x in n]
+                if not isinstance(n, dict) or n.get('k') == 'lambda':
+                    return n
+                if n.get('k') == 'return':
+                    e_ = n.get('e')
+                    if e_ is None or void:
+                        pre_ = [{'k': 'expr', 'e': e_, 'ln': n.get('ln')}] if (e_ is not None and not pure(e_)) else []
+                        return {'k': 'block', 'ln': n.get('ln'), 'body': pre_ + [{'k': 'ireturn', 'ln': n.get('ln')}]} if pre_ else {'k': 'ireturn', 'ln': n.get('ln')}
+                    return {'k': 'block', 'ln': n.get('ln'), 'body': [
+                        {'k': 'expr', 'ln': n.get('ln'), 'e': {'k': 'assign', 'op': '=', 'ln': n.get('ln'), 'l': {'k': 'ref', 'kind': 'var', 'id': rid, 'name': '__ret', 't': h.ret}, 'r': e_, 't': h.ret}},
+                        {'k': 'ireturn', 'ln': n.get('ln')}]}
+                return {k_: rwret(v_) for k_, v_ in n.items()}
+            cl = rwret(_beta(_clone(body, idmap, subst)))
+            inner = []
+            for s_ in cl:
+                inner.extend(self.stmt(s_, stack | {h.key}, self.depth - len(stack) - 1))
+            pre_stmts = []
+            for s_ in prefix:
+                pre_stmts.extend(self.stmt(s_, stack | {h.key}, self.depth - len(stack) - 1))
+            if not void:
+                pre_stmts.append({'k': 'decls', 'ln': call.get('ln'), 'd': [{'k': 'var', 'id': rid, 'name': '__ret', 'type': h.ret, 'init': None, 'ln': call.get('ln'), 'col': call.get('col')}]})
+            blk = {'k': 'inlineblock', 'ln': call.get('ln'), 'col': call.get('col'), 'from': h.name, 'body': {'k': 'block', 'ln': call.get('ln'), 'body': inner}}
+            self.count += 1
+            return pre_stmts + [blk], (None if void else {'k': 'ref', 'kind': 'var', 'id': rid, 'name': '__ret', 't': h.ret, 'ln': call.get('ln')})
         if body and body[-1]['k'] == 'return':
             ret = body[-1].get('e')
             stmts = body[:-1]
@@ -171,11 +294,11 @@ class _Inliner:
                     return None
             if ret is None:
                 return None
-        cl = _clone(stmts, idmap, subst)
+        cl = _beta(_clone(stmts, idmap, subst))
         out = []
         for s in prefix + cl:
             out.extend(self.stmt(s, stack | {h.key}, self.depth - len(stack) - 1))
-        rexp = _clone(ret, idmap, subst) if ret is not None else None
+        rexp = _beta(_clone(ret, idmap, subst)) if ret is not None else None
         self.count += 1
         return out, rexp
 
@@ -243,7 +366,12 @@ class _Inliner:
             e = SX.strip(s.get('e'))
             h = self.callee(e, stack)
             if h is not None:
-                r = self.expand(e, h, stack)
+                r = self.expand(e, h, stack, tail=True)
+                if r is not None and r[1] == 'TAIL':
+                    if (h.ret or 'void').strip() == 'void':
+                        return r[0] + [dict(s, e=None)]
+                    # every path of a value-returning helper ends in its own return
+                    return r[0]
                 if r is not None and r[1] is not None:
                     return r[0] + [dict(s, e=r[1])]
             if SX.is_node(s.get('e')):
@@ -459,7 +587,8 @@ def _copyprop(body):
             init = SX.strip(v.get('init')) if SX.is_node(v.get('init')) else None
             if not (init is not None and init.get('k') == 'ref' and init.get('kind') in ('var', 'param') and init.get('id')):
                 continue
-            if _base_type(v.get('type')) not in SCALARS or (v.get('type') or '').rstrip().endswith(('&', '*')):
+            vt_ = (v.get('type') or '').rstrip()
+            if vt_.endswith('&') or not (_base_type(vt_) in SCALARS or vt_.rstrip('const ').rstrip().endswith('*')):
                 continue
             if v['id'] in allw or ('arg', v['id']) in allw:
                 continue
@@ -479,18 +608,18 @@ def _copyprop(body):
     return nb, total[0]
 
 
-def normalise(prog, f, depth=3, keep=()):
+def normalise(prog, f, depth=3, keep=(), only=None):
     """f with helpers inlined, returned records scalarised and trivial copies removed; f itself when nothing applies.
     keep: qualified names of callees whose calls must stay calls (a rule that looks for the call of a guard function)"""
     cache = getattr(prog, '_normalised', None)
     if cache is None:
         cache = prog._normalised = {}
-    ck = (id(f), tuple(sorted(keep)))
+    ck = (id(f), tuple(sorted(keep)), None if only is None else id(only))
     if ck in cache:
         return cache[ck]
     res = f
     if f.body and f.body.get('k') == 'block':
-        inl = _Inliner(prog, f, depth, keep)
+        inl = _Inliner(prog, f, depth, keep, only)
         nb = dict(f.body, body=inl.stmts(f.body['body'], frozenset([f.key]), depth))
         if inl.count:
             if inl.renames:
